@@ -64,7 +64,9 @@ STUBS = ["osyris.plot.utils.prange -> range (kernel configurations)",
 
 def EXTRA_STUBS():
     from symx import core
-    return {"osyris.plot.utils": {"prange": core.sym_range}}
+    # (helper functions compiled with numba and called from the kernel's Python source run as Python too)
+    return {"osyris.plot.utils": dict(C.njit_helpers_as_python("osyris.plot.utils", skip=("evaluate_on_grid", "hist2d")),
+                                      prange=core.sym_range)}
 
 
 def configs(tier, thick=False):
@@ -73,7 +75,7 @@ def configs(tier, thick=False):
     for c in out:
         c["tier"] = tier
         if c["kind"] == "wiring":
-            k = (c["d"], c["win"], c["unit"], c.get("dzrange"), c["ncell"], c["origin"], c["layer"] == "vector")
+            k = (c["d"], c["win"], c["unit"], c.get("dzrange"), c["ncell"], c["origin"], c["layer"] == "vector", c.get("dyf"))
             c["sel"] = (k not in seen) and (c["nx"], c["ny"]) == (1, 1) or (c["ncell"] == 2 and k not in seen) or not c["origin"]
             if c["sel"]:
                 seen.add(k)
@@ -113,6 +115,17 @@ def _configs(tier, thick=False):
                         thick=thick, op="sum", nz=None))
     out.append(dict(kind="wiring", d="z", nx=2, ny=1, ncell=1, win=1.0, unit="cm", origin=False, layer="scalar", nanpat="all",
                     thick=thick, op="sum", nz=None))
+    # windows that are not square: dy given explicitly (narrow and tall)
+    for dyf in (0.4, 2.5):
+        for d in ("z", "zyx"):
+            for (nx, ny) in ((1, 1), (2, 2)):
+                c = dict(kind="wiring", d=d, nx=nx, ny=ny, ncell=1, win=1.0, unit="cm", origin=True, layer="scalar", nanpat="none",
+                         thick=thick, op="sum", nz=None, dyf=dyf)
+                if thick:
+                    for dzr in ("le", "ge"):
+                        out.append(dict(c, dzrange=dzr))
+                else:
+                    out.append(c)
     # the call under check is the SECOND of two calls sharing the same argument objects (layer, origin, resolution dict); the
     # first one asks for another window depth / size: nothing may be carried over from it
     for op in ((("sum", "mean") if tier != "quick" else ("sum",)) if thick else ("sum",)):
@@ -140,6 +153,11 @@ def _configs(tier, thick=False):
                     for sp in ((0.5, 1.0) if (nx, ny, nz) in ((2, 1, 1), (1, 1, 2)) else (1.0,)):
                         out.append(dict(kind="kernel", basis=basis, ndim=ndim, nx=nx, ny=ny, nz=nz, ncell=ncell, sp=sp,
                                         _split=((4 if nx * ny * nz * ncell >= 4 else 2) + (2 if basis == "rot" else 0))))
+    # different pixel sizes along x, y and the depth (non-square windows / resolutions, depth step != pixel size)
+    for (nx, ny, nz) in ([(1, 2, 1), (2, 1, 1)] if not thick else [(1, 1, 2), (1, 2, 2), (1, 1, 3)]):
+        for spacing in ([1.0, 0.5, 0.25], [0.25, 1.0, 0.5]):
+            out.append(dict(kind="kernel", basis="id", ndim=3, nx=nx, ny=ny, nz=nz, ncell=1, sp=1.0, spacing=spacing,
+                            _split=(4 if nx * ny * nz >= 4 else 2)))
     if not thick:
         for li in range(3):
             for oi in range(4):
@@ -287,6 +305,8 @@ def _map_args(m, cfg, ndim, dg, O_in=None):
     kw = dict(plot=False, resolution={"x": cfg["nx"], "y": cfg["ny"]})
     if cfg.get("win") is not None:
         kw["dx"] = ureg.Quantity(cfg["win"], cfg.get("unit", "cm"))
+        if cfg.get("dyf"):
+            kw["dy"] = ureg.Quantity(cfg["win"] * cfg["dyf"], cfg.get("unit", "cm"))
     if O_in is not None:
         kw["origin"] = Vector(*O_in, unit="cm")
     if cfg["d"] != "2d":
@@ -302,13 +322,15 @@ def _wiring(m, cfg):
     d, nx, ny, ncell, win, layer, thick = cfg["d"], cfg["nx"], cfg["ny"], cfg["ncell"], cfg["win"], cfg["layer"], cfg.get("thick")
     op = cfg.get("op", "sum")
     ndim = 2 if d == "2d" else 3
-    tag = f"{'thick' if thick else 'thin'}:{d}:{nx}x{ny}:c{ncell}:{layer}" + (f":{op}" if thick else "") + (":second-call" if cfg.get("warm") else "")
+    tag = f"{'thick' if thick else 'thin'}:{d}:{nx}x{ny}:c{ncell}:{layer}" + (f":{op}" if thick else "") + (":second-call" if cfg.get("warm") else "") + \
+          (f":dy={cfg['dyf']}dx" if cfg.get("dyf") else "")
     dg, C_, S_, RHO, W_ = _cells(m, ncell, ndim)
     o = [m.real("o" + k, lo=-BIG, hi=BIG) for k in "xyz"[:ndim]] if cfg["origin"] else None
     O = [m.t(x) for x in o] if o else [m.t(0.0)] * ndim
     kw = _map_args(m, cfg, ndim, dg, o)
     fu = C.fd(cfg["unit"])[0]
     Wcm = win * fu
+    Wy = Wcm * cfg.get("dyf", 1.0)          # window height (dy given explicitly when the configuration has a factor dyf)
     ureg = osyris.units._ureg
     DZ = None
     if thick:
@@ -328,7 +350,7 @@ def _wiring(m, cfg):
     nvec, uvec, vvec = basis_of(m, d, ndim)
     # free point of the window / slab (a harness input, not given to osyris)
     wx = m.real("win_x", lo=-0.5 * Wcm, hi=0.5 * Wcm)
-    wy = m.real("win_y", lo=-0.5 * Wcm, hi=0.5 * Wcm)
+    wy = m.real("win_y", lo=-0.5 * Wy, hi=0.5 * Wy)
     wz = m.real("win_z") if thick else None
     if thick:
         m.assume(m.And(m.ge(m.t(wz), -0.5 * DZ), m.le(m.t(wz), 0.5 * DZ)))
@@ -424,7 +446,7 @@ def _wiring(m, cfg):
     if not m.require((ny_, nx_) == (ny, nx), "grid has the requested resolution", key=f"args-grid-shape:{tag}"):
         return
     xs = [-0.5 * Wcm + Wcm * ((i + 0.5) / nx) for i in range(nx)]
-    ys = [-0.5 * Wcm + Wcm * ((j + 0.5) / ny) for j in range(ny)]
+    ys = [-0.5 * Wy + Wy * ((j + 0.5) / ny) for j in range(ny)]
     # counterexamples of the cut-point obligations are replayed END TO END: among the violating inputs prefer those where the
     # cells are small, well inside the window and off-centre by a different positive amount along u and v (so that a
     # mirrored / swapped / shifted image differs at the pixels of the 16x16 replay grid); verdicts do not depend on this
@@ -434,8 +456,14 @@ def _wiring(m, cfg):
         du = sum((uvec[k] * rel_[k] for k in range(ndim)), m.t(0.0))
         dv = sum((vvec[k] * rel_[k] for k in range(ndim)), m.t(0.0))
         a0 = 0.15 - 0.25 * n
-        vis += [m.ge(S_[n], Wcm / 8.0), m.le(S_[n], Wcm / 6.0), m.ge(du, a0 * Wcm), m.le(du, (a0 + 0.04) * Wcm),
-                m.ge(dv, 0.29 * Wcm), m.le(dv, 0.33 * Wcm)]
+        if cfg.get("dyf", 1.0) < 1.0:
+            # a narrow window: a cell about as high as the window, so that the pixels near the window's upper and lower edge
+            # show it (a search range that is too small along v loses exactly those)
+            vis += [m.ge(S_[n], 0.35 * Wcm), m.le(S_[n], 0.45 * Wcm), m.ge(du, a0 * Wcm), m.le(du, (a0 + 0.04) * Wcm),
+                    m.ge(dv, 0.0), m.le(dv, 0.05 * Wy)]
+        else:
+            vis += [m.ge(S_[n], Wcm / 8.0), m.le(S_[n], Wcm / 6.0), m.ge(du, a0 * Wcm), m.le(du, (a0 + 0.04) * Wcm),
+                    m.ge(dv, 0.29 * Wy), m.le(dv, 0.33 * Wy)]
         if ndim == 3:
             dn = sum((nvec[k] * rel_[k] for k in range(ndim)), m.t(0.0))
             vis += [m.le(m.abs(dn), S_[n] / 8.0)]
@@ -444,7 +472,7 @@ def _wiring(m, cfg):
         if cfg.get("nz"):
             m.require(nz_ == cfg["nz"], "depth resolution is the requested one", key=f"nz:{tag}")
         else:
-            pix = 0.5 * (Wcm / nx + Wcm / ny)
+            pix = 0.5 * (Wcm / nx + Wy / ny)
             q = DZ / pix
             m.check("number of depth samples is dz / pixel size rounded to the nearest integer",
                     m.And(m.ge(q, nz_ - 0.5), m.le(q, nz_ + 0.5)), key=f"nz:{tag}", prefer=vis)
@@ -486,8 +514,8 @@ def _wiring(m, cfg):
                 fs += [m.close(m.t(G[k][j][i][c]) * div, want[c], scale=sc) for c in range(3)]
     lo = [m.t(rec["grid_lower_edge_in_new_basis_" + c]) for c in "xyz"]
     spc = [m.t(rec["grid_spacing_in_new_basis_" + c]) for c in "xyz"]
-    fs += [m.close(lo[0] * div, -0.5 * Wcm, scale=sc), m.close(lo[1] * div, -0.5 * Wcm, scale=sc),
-           m.close(spc[0] * div, Wcm / nx, scale=sc), m.close(spc[1] * div, Wcm / ny, scale=sc)]
+    fs += [m.close(lo[0] * div, -0.5 * Wcm, scale=sc), m.close(lo[1] * div, -0.5 * Wy, scale=sc),
+           m.close(spc[0] * div, Wcm / nx, scale=sc), m.close(spc[1] * div, Wy / ny, scale=sc)]
     if thick:
         fs += [m.close(lo[2] * div, -0.5 * DZ, scale=sc + m.abs(DZ)), m.close(spc[2] * div, zstep, scale=sc + m.abs(DZ))]
     else:
@@ -605,8 +633,9 @@ def _end_to_end_one(m, cfg, nx, ny, lay, kw, C_, S_, RHO, W_, O, Wcm, fu, point,
             raise
         p = None
     dz = float(kw["dz"].magnitude) if thick else None
+    Wy = Wcm * cfg.get("dyf", 1.0)
     xs = [-0.5 * Wcm + Wcm * ((i + 0.5) / nx) for i in range(nx)]
-    ys = [-0.5 * Wcm + Wcm * ((j + 0.5) / ny) for j in range(ny)]
+    ys = [-0.5 * Wy + Wy * ((j + 0.5) / ny) for j in range(ny)]
     if p is None:
         # refused as empty: no point of the window/slab may be strictly inside a cell
         if any(inside(m, Pfree, C_, S_, n, ndim, True) for n in range(ncell)):
@@ -615,7 +644,7 @@ def _end_to_end_one(m, cfg, nx, ny, lay, kw, C_, S_, RHO, W_, O, Wcm, fu, point,
         D = np.asarray(p.layers[0]["data"].data, dtype=float)
         Mk = np.broadcast_to(np.asarray(p.layers[0]["data"].mask, dtype=bool), D.shape)
         if thick:
-            nz = cfg.get("nz") or max(int(round(dz / (0.5 * (Wcm / nx + Wcm / ny)))), 0)
+            nz = cfg.get("nz") or max(int(round(dz / (0.5 * (Wcm / nx + Wy / ny)))), 0)
             zstep = dz / nz if nz else None
             zs = [-0.5 * dz + zstep * (k + 0.5) for k in range(nz)]
         else:
@@ -675,7 +704,9 @@ def _kernel(m, cfg):
     from symx.arr import sarray, NP
     PU = install.mod("osyris.plot.utils")
     basis, ndim, nx, ny, nz, ncell, sp = cfg["basis"], cfg["ndim"], cfg["nx"], cfg["ny"], cfg["nz"], cfg["ncell"], cfg["sp"]
-    tag = f"kernel:{basis}:{ndim}d:{nx}x{ny}x{nz}:c{ncell}"
+    # pixel sizes per axis (x, y, depth): equal unless the configuration says otherwise
+    SP = [float(v) for v in cfg.get("spacing", [sp, sp, sp])]
+    tag = f"kernel:{basis}:{ndim}d:{nx}x{ny}x{nz}:c{ncell}" + (":aniso" if "spacing" in cfg else "")
     U, V, N = ROT[basis]
     cen = [m.array("c" + k, (ncell,), "float64") for k in "xyz"[:ndim]]
     hs = m.array("h", (ncell,), "float64")
@@ -697,7 +728,7 @@ def _kernel(m, cfg):
     for t in [x for c_ in Cn[:ndim] for x in c_] + LO:
         m.assume(m.And(m.ge(t, -sp * BIG), m.le(t, sp * BIG)))
     if nz == 1:
-        m.assume(m.And(m.le(LO[2], 0), m.gt(LO[2] + sp, 0)))
+        m.assume(m.And(m.le(LO[2], 0), m.gt(LO[2] + SP[2], 0)))
     # cell positions in the new basis
     def proj(vec, n):
         return sum((vec[k] * Cn[k][n] for k in range(3)), m.t(0.0))
@@ -706,7 +737,7 @@ def _kernel(m, cfg):
     newz = [proj(N, n) for n in range(ncell)]
     # pixel sample points
     def centre(axis, idx):
-        return LO[axis] + sp * (idx + 0.5)
+        return LO[axis] + SP[axis] * (idx + 0.5)
     zc = [centre(2, k) for k in range(nz)] if nz > 1 else [m.t(0.0)]
     grid = np.empty((nz, ny, nx, 3), dtype=object)
     P = {}
@@ -728,7 +759,7 @@ def _kernel(m, cfg):
     else:
         G = np.array(grid.tolist(), dtype=float)
     args = (arr(newx), arr(newy), arr(newz), cen[0], cen[1], cen[2] if ndim == 3 else None, val, hs,
-            lo[0], lo[1], lo[2], sp, sp, sp, G, ndim)
+            lo[0], lo[1], lo[2], SP[0], SP[1], SP[2], G, ndim)
     if m.symbolic:
         core_stubs = install.mod("osyris.plot.utils")
         out = PU.evaluate_on_grid.py_func(*args)
